@@ -40,7 +40,17 @@ torch::Tensor solve_policy(torch::Tensor pi_theta, torch::Tensor q, float lambda
                sum);
         */
         float error = sum - 1.0;
-        if (abs(error) <= SIGMA_EPSILON or sum == last_sum) {
+        if (abs(error) <= SIGMA_EPSILON) {
+            return lambda_n * pi_theta / (alpha - q);
+        }
+        if (sum == last_sum) {
+            // The bracket has shrunk to the resolution of a float. If
+            // alpha has landed on one of the q values the weights are
+            // infinite; the upper end of the bracket is the nearest
+            // alpha whose weights are finite.
+            if (!std::isfinite(sum)) {
+                alpha = alpha_max;
+            }
             return lambda_n * pi_theta / (alpha - q);
         }
         last_sum = sum;
